@@ -65,7 +65,8 @@ PROPS = {
                 "distinct by (method, #genes of both parents and child, donor, #single-parent genes from each side)",
         "assumptions": ["parents share a common ancestry: equal innovation number => equal link, equal trait count, all start genes present", "on a full tie (equal fitness and gene count) only 'all single-parent genes from one parent' is required",
                         "nothing is asserted about the enabled flag when the carrying parents disagree or both have it disabled"],
-        "expect_classes": {"family": ["single-parent gene that is disabled", "matching gene disabled in exactly one parent", "tie with equal gene counts", "tie, first parent smaller", "tie, second parent smaller", "parents carry the same genes", "single-parent genes inherited"]},
+        "expect_classes": {"family": ["single-parent gene that is disabled", "matching gene disabled in exactly one parent", "tie with equal gene counts", "tie, first parent smaller", "tie, second parent smaller", "parents carry the same genes", "single-parent genes inherited"],
+                           "history": ["op:mate_multipoint", "op:mate_multipoint_avg", "op:mate_singlepoint", "crossover with the same link under two innovation numbers", "single-parent gene that is disabled", "tie with equal gene counts"]},
     },
     "C11": {
         "run": "^TestC11",
